@@ -1,6 +1,7 @@
 package sim
 
 import (
+	"regexp"
 	"fmt"
 	"sort"
 	"strings"
@@ -537,6 +538,12 @@ func (g *c08Gen) family(f int) {
 		for i, n := 0, 2+r.Intn(2); i < n; i++ {
 			p := r.Perm(3)
 			to := []string{cols[p[0]], cols[p[1]]}
+			if r.Intn(4) == 0 {
+				// an activity about the very collection it is addressed to, one level down (an Announce of an Add to it)
+				g.reqs = append(g.reqs, inboxReq(g.id(), Pick(r, boxes), hostA, g.remoteAct("Announce", J{"to": to,
+					"object": J{"type": "Add", "id": fmt.Sprintf("%s/add%d", st.RNote, i), "actor": st.Dave, "object": st.RNote, "target": to[r.Intn(2)]}})))
+				continue
+			}
 			g.reqs = append(g.reqs, inboxReq(g.id(), Pick(r, boxes), hostA, g.remoteAct("Create", J{"to": to,
 				"object": J{"type": "Note", "id": fmt.Sprintf("%s/f%d", st.RNote, i), "attributedTo": st.Dave, "inReplyTo": st.Note1}})))
 		}
@@ -565,6 +572,16 @@ func genC08(r *Rng, tier string, k int) *RunSpec {
 	st.W.Servers[0].Docs = append(st.W.Servers[0].Docs,
 		DocSpec{"https://" + hostA + "/f/2", mustJSON(J{"@context": asCtx, "type": "Follow", "id": "https://" + hostA + "/f/2", "actor": st.Alice.ID, "object": st.Erin})},
 		DocSpec{st.Alice.Followers, mustJSON(J{"@context": asCtx, "type": "Collection", "id": st.Alice.Followers, "items": []string{st.Dave}})})
+	if r.Intn(3) == 0 {
+		// the application has callbacks of its own behind the defaults (they can fail, too)
+		cbs := map[string]string{}
+		for _, t := range []string{"Create", "Follow", "Accept", "Add", "Like", "Announce", "Update"} {
+			if r.Bool() {
+				cbs[t] = "wrapped"
+			}
+		}
+		st.W.Servers[0].FedCb, st.W.Servers[0].SocCb = cbs, cbs
+	}
 	g := &c08Gen{st: st, r: r}
 	maxReq := 3
 	if tier == "thorough" {
@@ -616,6 +633,124 @@ func init() {
 
 var c08RefCache = map[string]*c08Ref{}
 
+var c08SoloCache = map[string]map[string]int{}
+
+// c08Solo: what one request adds to the collections of the world when it runs alone (multiset of "collection|entry").
+func c08Solo(c *DriveCtx, sp *RunSpec, i int) map[string]int {
+	key := scenarioKey(sp) + fmt.Sprint("#", i)
+	if v, ok := c08SoloCache[key]; ok {
+		return v
+	}
+	if len(c08SoloCache) > 256 {
+		c08SoloCache = map[string]map[string]int{}
+	}
+	one := sp.Clone()
+	one.Faults = nil
+	one.Sched = SchedSpec{Strategy: "fifo"}
+	one.Requests = []ReqSpec{sp.Requests[i]}
+	one.Requests[0].After = nil
+	one.Gen += " [solo]"
+	res := Execute(c.T, one)
+	out := map[string]int{}
+	if res.Harness == "" && res.Verdict == "" {
+		before, after := collectionsOf(res.Before), collectionsOf(res.After)
+		for coll, ids := range after {
+			for _, id := range ids {
+				out[coll+"|"+id]++
+			}
+			for _, id := range before[coll] {
+				out[coll+"|"+id]--
+			}
+		}
+		for k, n := range out {
+			if n <= 0 {
+				delete(out, k)
+			}
+		}
+	}
+	c08SoloCache[key] = out
+	return out
+}
+
+// mintedBy: ids the simulated Database mints carry the minting task's name (.../accept/r1-1); which of two deliveries of one
+// activity does the minting is a matter of schedule, so the task name is not part of an entry's identity here.
+var mintedBy = regexp.MustCompile(`/[rx][0-9]+(\.[0-9]+)*-([0-9]+)$`)
+
+func unminted(k string) string { return mintedBy.ReplaceAllString(k, "/*-$2") }
+
+// c08SurvivesOthersFailure: single-fault class with an injected call failure. Every request that was not the one made to fail,
+// that answered success and that is not a second delivery of the failed request's activity, has added - when run alone - certain
+// entries to certain collections; all the families only ever add, so those entries must be there at the end.
+func c08SurvivesOthersFailure(c *DriveCtx, res *Result) {
+	s := res.Sim
+	var faulted []string
+	for _, f := range res.Spec.Faults {
+		switch f.Kind {
+		case "db_err", "tp_err", "cb_err", "auth_err", "block_err":
+			faulted = append(faulted, strings.SplitN(strings.SplitN(f.Site, "|", 2)[0], ".", 2)[0])
+		case "net_dup":
+		default:
+			return // crash, cancellation: other rules
+		}
+	}
+	if len(faulted) == 0 {
+		return
+	}
+	actID := func(rq *ReqSpec) string {
+		if b, err := parseJ(rq.Body); err == nil {
+			return idOf(b)
+		}
+		return ""
+	}
+	failedIDs := map[string]bool{}
+	for i := range res.Spec.Requests {
+		if contains(faulted, res.Spec.Requests[i].ID) {
+			failedIDs[actID(&res.Spec.Requests[i])] = true
+		}
+	}
+	need := map[string]int{}
+	owner := map[string]string{}
+	counted := map[string]bool{}
+	for i := range res.Spec.Requests {
+		rq := &res.Spec.Requests[i]
+		t := s.byID[rq.ID]
+		if t == nil || !t.done || t.Err != nil || contains(faulted, rq.ID) || rq.AfterCrash {
+			continue
+		}
+		if rq.Kind != "postInbox" && rq.Kind != "postOutbox" {
+			continue
+		}
+		if t.Rec == nil || (t.Rec.Status != 200 && t.Rec.Status != 201) {
+			continue
+		}
+		if id := actID(rq); id != "" && failedIDs[id] {
+			continue // a second delivery of the failed activity is absorbed as a duplicate: at most once, not exactly once
+		}
+		if id := actID(rq); id != "" && rq.Kind == "postInbox" {
+			if counted[rq.Actor+"|"+id] {
+				continue // the same activity delivered again to the same inbox adds nothing
+			}
+			counted[rq.Actor+"|"+id] = true
+		}
+		for k, n := range c08Solo(c, res.Spec, i) {
+			need[unminted(k)] += n
+			owner[unminted(k)] = rq.ID
+		}
+	}
+	have := map[string]int{}
+	for coll, ids := range collectionsOf(res.After) {
+		for _, id := range ids {
+			have[unminted(coll+"|"+id)]++
+		}
+	}
+	for _, k := range sortedKeys(need) {
+		if have[k] < need[k] {
+			s.violate("C08", "lost-update-under-failure", "collections", fmt.Sprintf("%s answered success and, run alone, adds %s (x%d); with %v made to fail (%s) only %d are there at the end", owner[k], k, need[k], faulted, res.Spec.Faults[0].Site, have[k]))
+			return
+		}
+	}
+}
+
 func scenarioKey(sp *RunSpec) string {
 	return canonJSON(J{"w": mustJSON(sp.World), "r": mustJSON(sp.Requests), "m": sp.MapSeed})
 }
@@ -650,7 +785,10 @@ func c08Oracle(c *DriveCtx, res *Result) {
 	c08Duplicates(res)
 	for _, f := range res.Spec.Faults {
 		if f.Kind != "net_dup" {
-			return // fault class: completion and duplicate handling only (a failed request may have done part of its effects)
+			// fault class: completion and duplicate handling (a failed request may have done part of its effects) - and the
+			// failure of one request may not cost another, acknowledged request what it added
+			c08SurvivesOthersFailure(c, res)
+			return
 		}
 	}
 	seq := true
